@@ -126,13 +126,15 @@ Definition fchg (c : fcfg) (names : list node) (tgts : list tgt) (f : fstate) : 
      sto := sto f; blobs := blobs f; ctr := k;
      rin := flat_map (fun x => map (fun t => (x, t, k)) tgts) names ++ rin f |}.
 
-(* ---- farm.dispatch without hands: next_job_batch, then the loop
-        `for j in _jobs.copy(): runid = rerunid(j) ... _put(...)`, then _cluster_sort ---- *)
-Definition ftick_s (c : cfg) (s : state) : state :=
-  let '(s1, rel) := next_job_batch c s in
-  let s2 := set_farm s1 (jobs s1 ++ rel) (cluster s1) (busy s1) (workers s1) (inflight s1) in
-  let s3 := fst (fold_left (put_job c) (jobs s2) (s2, [])) in
-  set_farm s3 (jobs s3) (cluster_sort (cluster s3)) (busy s3) (workers s3) (inflight s3).
+(* ---- farm.dispatch with no hand registered: next_job_batch, then the loop
+        `for j in _jobs.copy(): runid = rerunid(j) ... _put(...)`, then _cluster_sort;
+        the task messages stay in _cluster.  Hands, the archive trigger and the
+        pipeline switch are outside this model: no hand, flag down, pipeline active ---- *)
+Definition prep (s : state) : state :=
+  {| ns := ns s; que := que s; paused := paused s; jobs := jobs s; cluster := cluster s;
+     busy := busy s; workers := []; archive := false; active := true;
+     stored := stored s; inflight := inflight s |}.
+Definition ftick_s (c : cfg) (s : state) : state := fst (dispatch c (prep s)).
 
 Definition ftick (c : fcfg) (f : fstate) : fstate :=
   {| sch := ftick_s (fc c) (sch f); sto := sto f; blobs := blobs f; ctr := ctr f; rin := rin f |}.
